@@ -64,6 +64,17 @@ def gen_case(rng, tier, i):
             img = [0.0, 0.0, -d + f]
         spec.update(aperture=['EPD', epd], field_type='angle', fields=[[0.0, 0, 0]])
         info.update(fno=f / epd, scale=f, image=img, real=True)
+        r_ = rng.random()
+        if r_ < 0.25:
+            # the whole system immersed (a mirror in water / in a glass block): same geometry, paths scale with n
+            nim = round(float(rng.uniform(1.3, 4.0)), 6)
+            spec['obj_n'] = {'n': nim}
+            spec['surfaces'][-1]['medium'] = {'n': nim}
+            info['immersed'] = nim
+        elif r_ < 0.45 and fam == 'paraboloid':
+            # built as a SPHERE, used once, then made a paraboloid through set_conic
+            spec['surfaces'][0]['conic'] = 0.0
+            info['edit_conic'] = [1, -1.0]
     elif fam == 'paraboloid-convex':
         # convex paraboloid mirror, collimated light: the reflected rays appear to come from the (virtual) focus behind
         # the mirror; distance to the focus = distance to the directrix, so path - |surface -> focus| is constant
@@ -194,6 +205,12 @@ def check_case(case, rec):
     rec.cls(f'family-{fam}', 'fast(f/<=1.5)' if info['fno'] <= 1.5 else 'moderate' if info['fno'] <= 4 else 'slow')
     lens = L.build(spec)
     wl = case['wl']
+    if info.get('immersed'):
+        rec.cls('mirror-system-immersed')
+    if info.get('edit_conic'):
+        rec.cls('made-stigmatic-by-set_conic-after-first-use')
+        lens.trace(0.0, 0.0, wl, 3, 'hexapolar')
+        lens.set_conic(float(info['edit_conic'][1]), int(info['edit_conic'][0]))
     if info.get('edit_index'):
         rec.cls('made-stigmatic-by-set_index-after-first-use')
         lens.trace(0.0, 0.0, wl, 3, 'hexapolar')
